@@ -17,6 +17,7 @@ namespace sim {
 
 Arena g_arena[A_COUNT];
 Global g;
+sigjmp_buf g_run_jmp; bool g_run_jmp_set;
 uint8_t* g_guard_hit; uint32_t g_n_guards;
 const uintptr_t* g_pcs_beg; const uintptr_t* g_pcs_end;
 
@@ -499,6 +500,15 @@ static void on_signal(int sig, siginfo_t* si, void*) {
         event("VIOLATION crash op=%d %s", c->op, buf);
         g.abort_run = true;
         siglongjmp(c->jmp, 1);
+    }
+    if (g_run_jmp_set) {
+        // the harness itself faulted while inspecting what the library handed back (a bad pointer or length): for a caller that is a crash
+        char buf[160];
+        snprintf(buf, sizeof buf, "signal %d (%s) in the caller while using a result the library returned (op %d)", sig, strsignal(sig), c ? c->op : -1);
+        if (g.violations.size() < 16) { Violation v; v.kind = V_CRASH; v.op = c ? c->op : -1; v.detail = buf; g.violations.push_back(v); }
+        g.abort_run = true;
+        g_run_jmp_set = false;
+        siglongjmp(g_run_jmp, 1);
     }
     const char msg[] = "HARNESS-ERROR: fatal signal outside a library call\n";
     ssize_t r = write(2, msg, sizeof msg - 1); (void)r;
